@@ -94,17 +94,35 @@ def check_tag_tables(ctx, w, thorough):
         ctx.ob('L-ENUM', 'elf/enums.py:ENUMMAP_EXTRA_D_TAG_MACHINE', k, k in em, msg='extra-tag table keyed by an undefined machine name')
 
 
+def _offset_rows(f, env):
+    """[(conditions, pointer element, offset element)] of the returning paths of get_table_offset after its tag loop, the
+    elements as values at the end of the path (a local `offset` or the expression written straight into the return alike)"""
+    body = f.node.body
+    idx = [i for i, s in enumerate(body) if isinstance(s, ast.For)]
+    if len(idx) != 1:
+        raise AnalysisError('G-TAB', f.construct, 'tag loop not found at the top level')
+    tail = ast.FunctionDef(name='tail', args=f.node.args, body=body[idx[0] + 1:], decorator_list=[], lineno=f.node.lineno, col_offset=0)
+    rows = []
+    for c, r, p in paths.returns_with_conds(tail):
+        cs = expr.Facts(expr.CP(expr.cond_str(t, env), pol) for t, pol in c)
+        if cs.contradiction:
+            continue
+        if not (isinstance(r, ast.Tuple) and len(r.elts) == 2):
+            rows.append(None)
+            continue
+        rows.append((tuple(sorted(cs.items())), expr.path_value(p, r.elts[0], env), expr.path_value(p, r.elts[1], env)))
+    return rows
+
+
 def check_table_offset(ctx, w):
     """get_table_offset(tag) -> (pointer value, file offset): the offset is the pointer mapped through address_offsets;
     every consumer of a table position in this module takes element [1] (the file offset), never [0] (the address)."""
     f = w.model.func(DYN, 'Dynamic.get_table_offset')
     env = expr.FEnv(f.node, params=('tag_name',), inline=False)
-    rets = [r.value for r in expr.returns_of(f.node)]
-    ok = len(rets) == 1 and isinstance(rets[0], ast.Tuple) and len(rets[0].elts) == 2 and \
-        [expr.nfs(e, env) for e in rets[0].elts] == ['ptr', 'offset']
-    ctx.ob('G-TAB', f.construct, 'returns (pointer, file offset)', ok, got=[U(r) for r in rets])
-    tr = expr.assign_trace(f.node, env)
-    ctx.ob('G-TAB', f.construct, 'file offset = first address_offsets(pointer) mapping', any('address_offsets' in v for op, v in tr.get('offset', [])), got=tr.get('offset'))
+    rows = _offset_rows(f, env)
+    ctx.ob('G-TAB', f.construct, 'returns (pointer, file offset)', bool(rows) and all(r is not None and r[1] == 'ptr' for r in rows), got=rows)
+    want = sorted([((('T(ptr)', True),), 'ptr', 'next(address_offsets(elffile,ptr),None)'), ((('T(ptr)', False),), 'ptr', 'None')])
+    ctx.ob('G-TAB', f.construct, 'file offset = first address_offsets(pointer) mapping', sorted(r for r in rows if r is not None) == want, got=rows, expected=want)
     n = 0
     for g in w.model.library_funcs():
         if not g.mod.endswith('elf/dynamic.py'):
@@ -180,8 +198,8 @@ def check_iter(ctx, w):
     f = w.model.func(DYN, 'Dynamic.get_table_offset')
     env = expr.FEnv(f.node, params=('tag_name',), inline=False)
     tr = expr.assign_trace(f.node, env)
-    ok = tr.get('ptr') == [('=', 'None'), ('=', 'd_ptr')] and tr.get('offset') == [('=', 'None'), ('=', 'next(address_offsets(elffile,ptr),None)')]
-    ctx.ob('W-ITER', f.construct, 'first tag of the type, first mapped offset', ok, got=(tr.get('ptr'), tr.get('offset')))
+    ok = tr.get('ptr') == [('=', 'None'), ('=', 'd_ptr')] and sorted(set(r[2] for r in _offset_rows(f, env) if r)) == ['None', 'next(address_offsets(elffile,ptr),None)']
+    ctx.ob('W-ITER', f.construct, 'first tag of the type, first mapped offset', ok, got=(tr.get('ptr'), _offset_rows(f, env)))
     loops = [n for n in ast.walk(f.node) if isinstance(n, ast.For)]
     ok = len(loops) == 1 and expr.nfs(loops[0].iter, env) == '_iter_tags(self,tag_name)' and isinstance(loops[0].body[-1], ast.Break)
     ctx.ob('W-ITER', f.construct, 'takes the first matching tag', ok)
